@@ -758,3 +758,32 @@ pub fn sess_sweep(r: &mut Rng, name: &str, count: usize) -> Vec<String> {
     out.truncate(count);
     out
 }
+
+
+/// C16: any generated history, then a benign continuation: the transport heals, the broker answers everything
+/// (mode 2: also the CONNECT, session present iff no clean start was asked for), the connection is re-established
+/// if it was lost (or always, 50%), and poll() is called repeatedly.
+pub fn sess_drain(r: &mut Rng, name: &str, count: usize) -> Vec<String> {
+    let p = profile(name);
+    let mut out = Vec::new();
+    while out.len() < count {
+        let mut case = gen_case(r, &p);
+        case.actions.push(a_simple(14));
+        case.actions.push(a_num(12, 2));
+        let style = r.below(3);
+        if style == 0 {
+            // keep the handle if there is one; a poll on a dead handle fails, then reconnect
+            case.actions.push(a_simple(POLL));
+            case.actions.push(a_simple(POLL));
+        }
+        // packets already handed to the old transport may never be answered: replay them on a new connection
+        let _ = style;
+        case.actions.push(a_simple(10));
+        case.actions.push(a_connect(&[]));
+        for _ in 0..40 {
+            case.actions.push(a_simple(POLL));
+        }
+        out.push(case.line());
+    }
+    out
+}
